@@ -400,5 +400,9 @@ NOTES = {
 def run_property(chk, prop, replay=None):
     chk.trusted = common.TRUSTED_COMMON + ["quiescence discipline of the scheduler harness (one completion released at a time)"]
     chk.assumptions = [NOTES.get(prop, "")]
-    common.lean_obligations(chk, "BdModel/Props/%s.lean" % prop, {"Sched": SCHED_TIE, "Graph": _ties_of("Graph")}, extra_targets=["BdModel.Sched.Tables"])
+    ties = {"Sched": SCHED_TIE, "Graph": _ties_of("Graph")}
+    if prop == "C03":
+        # "no history is written in dry-run mode" is a theorem about the agent's call order (Lock area model of Agent.Run)
+        ties["Lock"] = [t for t in _ties_of("Lock") if t.startswith("h_lock_agent_")]
+    common.lean_obligations(chk, "BdModel/Props/%s.lean" % prop, ties, extra_targets=["BdModel.Sched.Tables"])
     run_stream(chk, prop, replay)
